@@ -11,7 +11,7 @@ from __future__ import annotations
 from ..core import Ctx
 from . import progs, tv
 
-PASSES = ["convert-scf-to-cf", "scf-for-loop-range-folding", "scf-for-loop-flatten", "licm", "control-flow-hoist"]
+PASSES = ["convert-scf-to-cf", "scf-for-loop-range-folding", "scf-for-loop-flatten", "licm", "control-flow-hoist", "lower-affine"]
 
 
 def programs(ctx: Ctx, n: int):
@@ -26,6 +26,8 @@ def programs(ctx: Ctx, n: int):
         yield text, widths, rws, "nest-family"
     for text, widths, rws in progs.range_fold_family(ctx.rng("rf"), 40 if ctx.quick else 800):
         yield text, widths, rws, "range-fold-family"
+    for text, widths, rws in progs.affine_family(ctx.rng("affine"), 60 if ctx.quick else 1500):
+        yield text, widths, rws, "affine-family"
 
 
 def run(ctx: Ctx):
@@ -34,7 +36,7 @@ def run(ctx: Ctx):
     ctx.log(f"{len(cases)} (program, pass) pairs changed by a pass; {stats}")
     tv.judge(ctx, cases, metas, "C16")
     ctx.coverage.update({"pass_stats": stats, "passes": PASSES,
-                         "rule": "generated programs + exhaustive constant-bound loop family + loop nests + range-folding shapes x passes; only changed programs are executed"})
+                         "rule": "generated programs + exhaustive constant-bound loop family + loop nests + range-folding shapes + affine.for/affine.apply family x passes; only changed programs are executed"})
     ctx.sample({"pass": metas[0]["pass"], "before": metas[0]["text"], "after": metas[0].get("after", "")} if metas else "none")
     ctx.assumptions += ["Machine.tla is the reference semantics; a source loop with non-positive step is undefined and imposes nothing",
-                        "lower-affine, scf-for-loop-unroll and frontend-desymrefy are not exercised (no affine / symref generator yet)"]
+                        "lower-affine is exercised on affine.for with constant bounds and affine.apply (affine.if / load / store / parallel are not generated); scf-for-loop-unroll and frontend-desymrefy are not exercised"]
